@@ -1421,10 +1421,33 @@ func genConcFuncs(t *rapid.T) ConcFuncsCase {
 	g := &gctx{t: t, labels: map[string]bool{}}
 	c := ConcFuncsCase{FuncsCase: buildFuncs(g, 5, 0, true)}
 	c.W, c.Reps = genWorkers(g)
+	for _, l := range c.Labels {
+		if strings.HasPrefix(l, "physical-line>4096") {
+			// bodies of tens of kilobytes: a few evaluations are enough (the cost of one is that of formatting
+			// the whole body), and keep a case far from the driver's watchdog on a loaded machine
+			if c.W > 2 {
+				c.W = 2
+			}
+			c.Reps = 2
+			break
+		}
+	}
 	return c
 }
 
 func checkConcFuncs(c ConcFuncsCase) error {
+	if os.Getenv("C10_SHOW_SLOW") != "" {
+		t0 := time.Now()
+		defer func() {
+			if d := time.Since(t0); d > time.Second {
+				n := 0
+				for _, f := range c.Files {
+					n += len(f)
+				}
+				fmt.Printf("C10-SLOW %v W=%d reps=%d ctxs=%d files=%dB call=%dB inline=%dB labels=%v\n", d, c.W, c.Reps, len(c.Ctxs), n, len(c.Call), len(c.Inline), c.Labels)
+			}
+		}()
+	}
 	reset(c.Sw)
 	defer reset(Switches{})
 	fc, err := compileFuncs(c.FuncsCase)
@@ -1437,12 +1460,20 @@ func checkConcFuncs(c ConcFuncsCase) error {
 		want[i] = fc.inline.BuildKey(x.kb(nil))
 	}
 	exprs := append([]compiled{{"the inlined template", fc.inline}}, fc.exprs...)
+	seqStart := time.Now()
 	for i, x := range c.Ctxs {
 		for _, e := range exprs {
 			if got := e.kb.BuildKey(x.kb(nil)); got != want[i] {
 				return fmt.Errorf("sequential evaluation already differs (%s)\n%s\n call:   %s\n inline: %s\n context %d: %s\n got:  %s\n want: %s", e.name, showFiles(c.Files), q(withTable(c.Call)), q(withTable(c.Inline)), i+1, describeCtx(x), q(got), q(want[i]))
 			}
 		}
+	}
+	if time.Since(seqStart) > 150*time.Millisecond {
+		// an honest but expensive template (nested helpers that multiply their output): W x reps repetitions of
+		// it would take minutes; the sequential comparison above has been made, the concurrent one is left out
+		// (this prunes the domain, it never decides anything)
+		pbt.Exclude("concurrent-funcs:one-sequential-pass-takes>150ms")
+		return nil
 	}
 	if err := hammer(exprs, c.Ctxs, make([][]pbt.S, len(exprs)), want, c.W, c.Reps); err != nil {
 		return fmt.Errorf("%v\n%s\n call:   %s\n inline: %s", err, showFiles(c.Files), q(withTable(c.Call)), q(withTable(c.Inline)))
